@@ -74,19 +74,43 @@ Section Parse.
      continues at the same offset.  The three functions below transcribe parseTagAndLength and parseField for the member
      kinds that occur in pkcs8, pkix.AlgorithmIdentifier and ecPrivateKey. *)
 
-  (* parseTagAndLength: identifier and length octets.  (The high-tag-number form, identifier octet xxx11111, is parsed by
-     Go as well; no member here expects such a tag and the model treats it as an error - the correspondence streams do not
-     produce it.)  Lengths of 2^31 and more are "length too large". *)
+  (* parseBase128Int as used for tag numbers: at most five octets, no leading 0x80, value at most 2^31 - 1 *)
+  Fixpoint go_b128 (fuel : nat) (bs : bytes) (acc : N) (first : bool) : option (N * bytes) :=
+    match fuel with
+    | O => None
+    | S f => match bs with
+             | [] => None
+             | b :: r => let n := b2n b in
+                         if first && (n =? 128) then None
+                         else let acc' := acc * 128 + n mod 128 in
+                              if n <? 128 then (if acc' <=? 2147483647 then Some (acc', r) else None)
+                              else go_b128 f r acc' false
+             end
+    end.
+
+  (* parseTagAndLength: identifier and length octets.  The high-tag-number form (identifier octet xxx11111 followed by the
+     tag number in base 128, which must be 31 or more) is read as Go reads it; no member here expects such a tag, so it only
+     matters for where the element ends and for "tag does not match: optional member absent".  Lengths of 2^31 and more are
+     "length too large". *)
   Definition go_hdr (bs : bytes) : option (cls * bool * N * N * bytes) :=
     match bs with
     | [] => None
-    | i :: r => match dec_ident i with
-                | None => None
-                | Some (c, k, t) => match dec_len r with
-                                    | Some (n, r2) => if n <? 2147483648 then Some (c, k, t, n, r2) else None
-                                    | None => None
-                                    end
-                end
+    | i :: r =>
+      let tagged : option (cls * bool * N * bytes) :=
+          match dec_ident i with
+          | Some (c, k, t) => Some (c, k, t, r)
+          | None => match go_b128 5 r 0 true with
+                    | Some (t, r1) => if t <? 31 then None else Some (cls_of_code (b2n i / 64), N.testbit (b2n i) 5, t, r1)
+                    | None => None
+                    end
+          end in
+      match tagged with
+      | None => None
+      | Some (c, k, t, r1) => match dec_len r1 with
+                              | Some (n, r2) => if n <? 2147483648 then Some (c, k, t, n, r2) else None
+                              | None => None
+                              end
+      end
     end.
 
   Definition is_univ (c : cls) : bool := match c with Univ => true | _ => false end.
